@@ -115,6 +115,24 @@ void run_d(vp::Input const& in, vp::Ctx& ctx) {
 			VP_CHECK(!(eab && ebc) || eac, "cmp/eq_transitive", "a==b and b==c but not a==c");
 		}
 	}); }); });
+	// --- two views of ONE array with the same origin element, the same extents and the same leading stride, but differently strided rows
+	// (v1 = the left half of the columns, v2 = every second column): an identity shortcut on (base, leading stride) would call them equal
+	if constexpr(D >= 2 && std::is_same_v<AA<int>, std::allocator<int>>) {
+		if(ops[0].n() > 0) {
+			long pe[D]; for(int k = 0; k < D; ++k) { pe[k] = ops[0].ext[static_cast<std::size_t>(k)]; } pe[D - 1] *= 2;
+			multi::array<int, D> P(make_ext<D>(pe));
+			{ long i = 0; for(auto& e : P.elements()) { e = pattern(&i, 1, salt + 1U) + static_cast<int>((i/3) % 2); ++i; } }
+			long const c = ops[0].ext[static_cast<std::size_t>(D - 1)];
+			auto&& v1 = P.unrotated().sliced(0, c).rotated();              // columns [0, c)
+			auto&& v2 = P.unrotated().strided(2).rotated();                // columns 0, 2, 4, ...
+			bool eq = true, lt = false, decided = false;
+			{ auto i1 = v1.elements().begin(); auto i2 = v2.elements().begin(); for(long j = 0; j < ops[0].n(); ++j, ++i1, ++i2) { if(*i1 != *i2) { eq = false; if(!decided) { lt = *i1 < *i2; decided = true; } } } }
+			Expect x{eq, lt, !eq && !lt, false};
+			check_pair<true>(v1, v2, x, "views of one array: left half of the columns vs every second column");
+			check_pair<true>(v2, v1, Expect{eq, !eq && !lt, lt, false}, "views of one array: every second column vs left half of the columns");
+			ctx.label("pair_views_of_one_array");
+		}
+	}
 	bool layouts_differ = vk(ka) != vk(kb);
 	bool same_shape = ops[0].ext == ops[1].ext;
 	ctx.nontrivial = !any_empty && ops[0].n() >= 2 && (layouts_differ || !same_shape);
